@@ -323,6 +323,58 @@ func (c06Check) Run(u Unit, w *Worker) UnitResult {
 		res.Outcomes = append(res.Outcomes, o)
 	}
 	res.Hashes = append(res.Hashes, fmt.Sprintf("shard%d", a.Shard), fmt.Sprintf("shard%d-b", a.Shard))
+	// Rule edits accumulate: a user locked out by a wildcard exclusion stays locked out when a narrower exclusion of the
+	// same kind is added afterwards.  The expectation here comes from the rule history itself, not from the stored
+	// profile (a defect in how the stored lists are rewritten would make the stored profile agree with the behaviour).
+	if a.Shard == 0 {
+		type lockout struct {
+			name  string
+			edits [][]string
+			deny  [][]string
+		}
+		data := [][]string{{"GET", "a1"}, {"SET", "a1", "y"}, {"DEL", "a1"}, {"RPUSH", "l", "x"}, {"FLUSHDB"}}
+		for _, lo := range []lockout{
+			{"-@all then -@dangerous", [][]string{{"-@all"}, {"-@dangerous"}}, data},
+			{"-@all then -@write", [][]string{{"-@all"}, {"-@write"}}, data},
+			{"-all then -flushall", [][]string{{"-all"}, {"-flushall"}}, data},
+			{"nocommands then -set", [][]string{{"nocommands"}, {"-set"}}, data},
+			{"resetchannels then -&private.*", [][]string{{"resetchannels"}, {"-&private.*"}}, [][]string{{"PUBLISH", "c1", "m"}, {"SUBSCRIBE", "c1"}}},
+		} {
+			if !w.Case("lockout " + lo.name) {
+				continue
+			}
+			setup := []Action{cmdOn(0, "AUTH", "adminpw"), cmdOn(0, "SET", "a1", "x"),
+				cmdOn(0, "ACL", "SETUSER", "u", "on", ">p", "+@all", "+all", "%RW~*", "+&*"), cmdOn(1, "AUTH", "u", "p")}
+			for _, e := range lo.edits {
+				setup = append(setup, cmdOn(0, append([]string{"ACL", "SETUSER", "u"}, e...)...))
+			}
+			for _, pr := range lo.deny {
+				wld, outs, err := buildWorld(cfg, setup)
+				if err != nil || wld.Dead() {
+					continue
+				}
+				bad := false
+				for _, o := range outs[4:] {
+					if o.V.IsErr() {
+						bad = true // the rule token itself is not accepted: nothing to judge
+					}
+				}
+				pre := wld.State()
+				out := wld.Do(cmdOn(1, pr...))
+				post := wld.State()
+				res.Stats["transitions"]++
+				res.Stats["lockout_probes"]++
+				if !bad && !isAuthzError(out) && !out.Empty {
+					res.Findings = append(res.Findings, Finding{Prop: "C06", Kind: "executed-but-denied", Sig: "lockout-lost|" + lo.name + "|" + strings.ToUpper(pr[0]),
+						Detail: fmt.Sprintf("user locked out by %v: %v was answered %s (the narrower exclusion re-opened the wildcard one)", lo.edits, pr, out.Brief())})
+				} else if !bad && pre != nil && post != nil && dbKey(pre.Alpha[0]) != dbKey(post.Alpha[0]) {
+					res.Findings = append(res.Findings, Finding{Prop: "C06", Kind: "denied-but-changed", Sig: "lockout-lost|" + lo.name + "|" + strings.ToUpper(pr[0]) + "|state",
+						Detail: fmt.Sprintf("user locked out by %v: %v was refused but changed the dataset", lo.edits, pr)})
+				}
+				wld.Close()
+			}
+		}
+	}
 	res.Samples = append(res.Samples, map[string]any{"rule_sets": len(sets), "probes": len(probes), "example_rules": sets[(a.Shard*13)%len(sets)], "example_probe": probes[(a.Shard*7)%len(probes)].A})
 	return res
 }
